@@ -561,15 +561,15 @@ def judge(cfg, req, obs, ref):
         return viol, "no answer within the watchdog while the association thread was still alive"
 
     if ans == "AC":
-        if failing:
-            if len(failing) == 1:
-                c = failing[0]
-                sub = ref["rel"].get(c)
-                v("established-against-policy|%s%s%s" % (nc, c, ("|" + sub) if sub else ""),
-                  "A-ASSOCIATE-AC although the %s check fails" % c)
+        # one violation per failing check (each of them should have prevented the AC), keyed by the check's own mechanism
+        for c in failing:
+            sub = ref["rel"].get(c)
+            title = {"calling-aet": req["calling16"], "called-aet": req["called16"]}.get(c)
+            if title is not None and not conformant_title(title):
+                key = "established-against-policy|nonconformant-title|%s|%s" % (sub, c)
             else:
-                v("established-against-policy|%smultiple|%s" % (nc, "+".join(failing)),
-                  "A-ASSOCIATE-AC although several checks fail")
+                key = "established-against-policy|%s%s" % (c, ("|" + sub) if sub else "")
+            v(key, "A-ASSOCIATE-AC although the %s check fails (all failing checks: %s)" % (c, failing))
         # control: the C-ECHO handler must have run and answered
         if dimse_calls != ["EVT_C_ECHO"] or not obs["dimse_rsp"] or obs["dimse_rsp"].get("status") != 0:
             inc = "control failed: established but C-ECHO not served (%s, %s)" % (dimse_calls, obs["dimse_rsp"])
